@@ -299,6 +299,18 @@ def run(check, repo: Repo) -> None:
             continue
         via = [n for c in sites for n in rcfg.node_containing(c)]
         ok = bool(via) and rcfg.all_paths_pass_through(rcfg.entry, loop_node, via)
+        if not ok and callee == "self.compute_propagator_arrays" and via:
+            # a conditional refresh in reconstruct is sound while every writer of the inputs refreshes by itself: the slice-thickness setter recomputes the propagators
+            try:
+                _pm, st_set = repo.func(f"{PB}:PtychographyBase.slice_thicknesses@setter")
+                ok = any((call_name(c) or "").endswith("compute_propagator_arrays") for c in calls_in(st_set))
+                if not ok:
+                    check.violated("C02-R8", "reconstruct: `self.compute_propagator_arrays(…)` runs on every path to the epoch loop",
+                                   "reconstruct refreshes the propagators only conditionally AND the slice_thicknesses setter no longer recomputes them: after `ptycho.slice_thicknesses = …` "
+                                   "the forward model propagates with the thicknesses given at construction", tmod.line(sites[0]), definite=True)
+                    continue
+            except AnalysisError:
+                ok = False
         if ok and argcheck is not None:
             ok = any(c.args and unparse(c.args[0]) == argcheck for c in sites)
         check.decide(ok, "C02-R8", f"reconstruct: `{callee}(…)` runs on every path to the epoch loop" + (f" with this call's `{argcheck}`" if argcheck else ""), "",
